@@ -207,6 +207,31 @@ def _main(a, seed, t_start):
             refuted.append(o)
         else:
             undecided.append(o)
+    # second, calm attempt for what stayed undecided: the pool has drained (no contention between 16 workers any more), fewer processes,
+    # three times the budget - a timeout caused by load must not decide anything.  Bounded in number so that a change which breaks many
+    # obligations at once does not cost minutes.
+    if undecided and not os.environ.get('VERIF_NO_RETRY'):
+        env_fast = os.environ.pop('VERIF_FAST_UNKNOWN', None)       # (mutation tooling: fewer and shorter second attempts)
+        cand = [o for o in undecided if '.known-' not in o.name]        # (a clause with a recorded finding is expected to stay open)
+        retry = cand[:24] if env_fast is None else cand[:8]
+        try:
+            again = solve.discharge(retry, timeout_ms=timeout_ms * (3 if env_fast is None else 1), seed=seed + 7, procs=8)
+        finally:
+            if env_fast is not None:
+                os.environ['VERIF_FAST_UNKNOWN'] = env_fast
+        for o in retry:
+            r2 = again[o.name]
+            solver_time += r2['time']
+            r2['tried'] = results[o.name]['tried'] + [('retry',) + tuple(t) for t in r2['tried']]
+            if r2['result'] == 'unsat':
+                results[o.name] = r2
+                undecided.remove(o)
+                discharged.append(o)
+                by_backend[r2['by']] = by_backend.get(r2['by'], 0) + 1
+            elif r2['result'] == 'sat' and r2.get('model') is not None:
+                results[o.name] = r2
+                undecided.remove(o)
+                refuted.append(o)
     # vacuity: requires unsatisfiable, or every exit of a function unreachable
     vac_problems = []
     for fname, got in per_fn.items():
